@@ -154,6 +154,11 @@ func (ei *resourceInformer) createSharedInformer() error {
 
 // Snapshot returns all cached objects for this informer
 func (ei *resourceInformer) getCachedObjects() []kemtypes.ObjectAndFilterResult {
+	// Copy the cache and reset eventBuf in one critical section: an event saved
+	// after the copy describes a change that is not in the copy and must be kept.
+	ei.eventBufLock.Lock()
+	defer ei.eventBufLock.Unlock()
+
 	ei.cacheLock.RLock()
 	res := make([]kemtypes.ObjectAndFilterResult, 0)
 	for _, obj := range ei.cachedObjects {
@@ -162,11 +167,9 @@ func (ei *resourceInformer) getCachedObjects() []kemtypes.ObjectAndFilterResult 
 	ei.cacheLock.RUnlock()
 
 	// Reset eventBuf if needed.
-	ei.eventBufLock.Lock()
 	if !ei.eventCbEnabled {
 		ei.eventBuf = nil
 	}
-	ei.eventBufLock.Unlock()
 	return res
 }
 
